@@ -142,7 +142,8 @@ class TailAnalysis:
                         continue
                     t = W.T.term(o)
                     hit = is_backend(t, vecs)
-                    if hit is not None and (hit[0] != t or k == "MethodCall"):
+                    explicit = x.get("k") == "Field" or (x.get("k") == "MethodCall" and x["name"] in ("as_ref", "as_mut", "as_slice", "as_mut_slice", "deref", "borrow"))
+                    if hit is not None and (hit[0] != t or explicit):
                         A.accesses += 1
                         A.problems.append(("whole-backend", "`%s` uses the whole backend of the vector (including spare words and the bits after the last element) instead of the first len*width/BITS words" % show(F, n)[:120], F.loc(n)))
         W = Walker(F, b, on_node=on_node, inline=self.inl)
